@@ -26,6 +26,19 @@ type c18Oracle struct {
 	inputs  int
 	hostile int
 	probes  int
+	// "keeps serving subsequent calls with unchanged behaviour": a twin that never sees the transactions that
+	// were answered with an error code must agree on every later result and hash (the C06 twin, reported here)
+	twin c06Oracle
+}
+
+func (o *c18Oracle) unchanged(e *core.Engine, idx int, st *core.Step, stepErr error) []core.Violation {
+	vs := o.twin.AfterStep(e, idx, st, stepErr)
+	for i := range vs {
+		vs[i].Property = "C18"
+		vs[i].Oracle = "unchanged-behaviour"
+		vs[i].Sig = vs[i].Sig + ":" + c18Suspects(st)
+	}
+	return vs
 }
 
 func (o *c18Oracle) Inputs() int { return o.inputs }
@@ -61,6 +74,9 @@ func (o *c18Oracle) AfterStep(e *core.Engine, idx int, st *core.Step, stepErr er
 		o.inputs += len(st.Txs)
 		return nil
 	}
+	if st.Kind == "boot" {
+		return o.unchanged(e, idx, st, stepErr)
+	}
 	if st.Kind != "block" {
 		return nil
 	}
@@ -87,7 +103,7 @@ func (o *c18Oracle) AfterStep(e *core.Engine, idx int, st *core.Step, stepErr er
 			}
 		}
 	}
-	return nil
+	return o.unchanged(e, idx, st, stepErr)
 }
 
 func (o *c18Oracle) Finish(e *core.Engine) []core.Violation { return nil }
@@ -105,6 +121,8 @@ func init() {
 			su := &Setup{Knobs: k, Sess: gen.NewSession()}
 			su.Sess.M["lethal"] = true
 			su.Sess.M["olvm-basefee"] = true
+			su.Sess.M["olvm-no-gaslimit"] = true // the twin's running gas total legitimately differs
+			gen.OlvmNoGaslimit = true
 			su.Replicas = append(su.Replicas, core.ReplicaConf{Identity: "x0", Recent: 10, Every: 100, Cycles: 10, WitnessInitEarly: true})
 			su.Gens = allGens(rng)
 			su.Gens = append(su.Gens, gen.ByName("hostile-values", "garbage", "impersonator")...)
